@@ -22,6 +22,14 @@ class Segmenter:
             self.maxlen = self.spec[2] if len(self.spec) > 2 else 64
         elif self.kind == "cuts":
             self.cuts = sorted(set(int(c) for c in self.spec[1]))
+        elif self.kind == "chunkcuts":
+            # cuts derived from the chunked framing of the FIRST message of the stream:
+            # mode "size": after every chunk-size line; "all": also after each chunk's data and after its CRLF
+            self.mode = self.spec[1] if len(self.spec) > 1 else "size"
+            self.seen = bytearray()      # everything delivered or available so far
+            self.cutlist = []
+            self.parse_pos = None        # where the next chunk-size line starts (absolute)
+            self.done_parsing = False
         elif self.kind == "cutafter":
             self.marker = bytes.fromhex(self.spec[1])
             self.hist = bytearray()
@@ -31,7 +39,40 @@ class Segmenter:
             self.hist = bytearray()   # bytes seen so far, until the first blank line is found
             self.head_end = None
 
+    def _chunk_layout(self):
+        data = bytes(self.seen)
+        if self.parse_pos is None:
+            j = data.find(b"\r\n\r\n")
+            if j < 0:
+                return
+            self.parse_pos = j + 4
+        while not self.done_parsing:
+            k = data.find(b"\r\n", self.parse_pos)
+            if k < 0:
+                return
+            try:
+                size = int(data[self.parse_pos:k].split(b";")[0], 16)
+            except ValueError:
+                self.done_parsing = True
+                return
+            self.cutlist.append(k + 2)
+            if size == 0:
+                self.done_parsing = True
+                return
+            if self.mode == "all":
+                self.cutlist += [k + 2 + size, k + 2 + size + 2]
+            self.parse_pos = k + 2 + size + 2
+
     def take(self, avail, buf=b""):
+        if self.kind == "chunkcuts":
+            have = self.pos + avail
+            if len(self.seen) < have:
+                self.seen += bytes(buf[len(self.seen) - self.pos:avail])
+            self._chunk_layout()
+            nxt = [c for c in self.cutlist if c > self.pos]
+            n = min(avail, nxt[0] - self.pos) if nxt else avail
+            self.pos += n
+            return n
         if self.kind == "cutafter":
             # one cut, right after the first occurrence of the marker (e.g. between the CR and LF of a line)
             if self.cut is None and self.hist is not None:
